@@ -1,5 +1,5 @@
 """C12 - negotiated parse configuration matches the capabilities both sides sent."""
-import os
+import os, struct
 from lib import core, bgpenc
 from lib.core import CheckFailure
 
@@ -129,8 +129,79 @@ def malformed_cases(ctx, start):
     return out
 
 
+def live_cases(ctx):
+    """the live session: the peer's OPEN arrives in OpenSent, or in Active with the DelayOpen timer running (two copies of the
+    derivation in Session::handle_event); every direction combination of two families x local ADD-PATH list x capability 65"""
+    rng = core.SplitMix(ctx.seed + 77)
+    MARKER = b'\xff' * 16
+    out = []
+    for delay in (0, 1):
+        for local in ('-', '1.1', '2.1', '1.1,2.1', '1.1,1.2,2.1'):
+            for d1 in range(4):
+                for d2 in range(4):
+                    for four in (0, 1):
+                        d3 = rng.below(4)
+                        ent = [(f, d) for f, d in (((1, 1), d1), ((2, 1), d2), ((1, 2), d3)) if d]
+                        if rng.chance(1, 2):
+                            ent.reverse()
+                        caps = []
+                        if four:
+                            caps.append(bytes([65, 4]) + struct.pack('>I', 65001))
+                        if ent:
+                            if len(ent) > 1 and rng.chance(1, 3):
+                                for f, dd in ent:
+                                    caps.append(bytes([69, 4]) + struct.pack('>HBB', f[0], f[1], dd))
+                            else:
+                                v = b''.join(struct.pack('>HBB', f[0], f[1], dd) for f, dd in ent)
+                                caps.append(bytes([69, len(v)]) + v)
+                        if rng.chance(1, 2):
+                            caps.reverse()
+                        pv = b''.join(caps)
+                        pb = bytes([2, len(pv)]) + pv if caps else b''
+                        body = bytes([4]) + struct.pack('>HH', 65001, 90) + bytes([10, 0, 0, 2, len(pb)]) + pb
+                        msg = MARKER + struct.pack('>HB', 19 + len(body), 1) + body
+                        peer = {'1.1': d1, '2.1': d2, '1.2': d3}
+                        loc = [] if local == '-' else local.split(',')
+                        shown = sorted(set(loc + ['1.1', '2.1', '1.2']))
+                        exp = '%d/%s' % (four, ','.join('%s:%s' % (f, {0: '-', 1: '2', 2: '1', 3: '3'}[peer[f]] if f in loc else '-') for f in shown))
+                        out.append({'line': 'FSM %d %d 90 %s e:ManualStartWithPassiveTcpEstablishment;e:TcpConnectionConfirmed;m:%s'
+                                            % (len(out), delay, local, msg.hex()), 'exp': exp,
+                                    'desc': {'delay_open': delay, 'local': local, 'peer': peer, 'four': four}})
+    return out
+
+
+def run_live(ctx, d):
+    cases = live_cases(ctx)
+    path = os.path.join(d, 'live.txt')
+    with open(path, 'w') as f:
+        f.write('\n'.join(c['line'] for c in cases) + '\n')
+    impl, _ = core.run_tool(ctx.harness, ['c08', path], timeout=3000)
+    impl = [l for l in impl if l]
+    by = {int(l.split(' ')[1]): l for l in impl}
+    for i, c in enumerate(cases):
+        if len(ctx.violations) > 10:
+            break
+        l = by.get(i)
+        if l is None:
+            ctx.violation('no result from the implementation harness (live session)', case=c['line'][:300]); continue
+        last = l.split(' ; ')[-1]
+        head = last.split('|')[0].split(',', 4)
+        st, cfg = head[0].split(' ')[-1], (head[4] if len(head) > 4 else '?')
+        if 'PANIC' in l:
+            ctx.violation('the live session panicked on an OPEN', case=c['desc'], impl=last[:200], line=c['line'][:400])
+        elif st != 'OpenConfirm' or cfg != c['exp']:
+            ctx.violation('live session: the configuration the connection decodes with differs from the RFC 7911 / capability-65 rule',
+                          case=c['desc'], expected='OpenConfirm ' + c['exp'], impl=last[:200], line=c['line'][:400])
+    if ctx.model:
+        model, _ = core.run_tool(ctx.model, ['c08', path], timeout=3000)
+        for k, a, b in core.diff_lines(model, impl, limit=5):
+            ctx.violation('model and implementation disagree (live session)', model=a[:400], impl=b[:400])
+    return len(cases)
+
+
 def run(ctx):
     d = core.case_dir('C12')
+    n_live = run_live(ctx, d)
     cases = gen_cases(ctx)
     cases += malformed_cases(ctx, len(cases))
     path = os.path.join(d, 'cases.txt')
@@ -174,12 +245,13 @@ def run(ctx):
                 'combinations per family of a 5-family universe x 4 capability placements x 4 four-octet combinations, '
                 'joint exhaustive over %d families, seeded random assignments, malformed ADD-PATH capabilities; each case '
                 'through the intersection helper, the BMP OPEN-based and per-peer-header derivations; distinct = distinct '
-                'observation lines' % (2 if ctx.tier == 'quick' else 3),
+                'observation lines; plus the live session through the cfg hooks: the peer OPEN handled in OpenSent and in Active with the '
+                'DelayOpen timer running, all 16 direction combinations of two families (a third at random) x 5 local ADD-PATH lists x '
+                'capability 65 present / absent, judged against the rule and the model' % (2 if ctx.tier == 'quick' else 3),
         'exhaustive': False,
-        'input_distribution': {'cases': len(cases), 'malformed': 60},
+        'input_distribution': {'cases': len(cases), 'malformed': 60, 'live_session_cases': n_live},
     })
     ctx.samples = impl[:3] + impl[-3:]
-    ctx.notes.append('live-session derivation: proved on the model (c12_live); exercised against the implementation by the C08 harness once hooks are in place')
 
 
 def replay(ctx, path):
